@@ -155,8 +155,17 @@ func propVerify(t *rapid.T) {
 	}
 	var got bool
 	adj, unchanged := gen.Adjacent(msg2, sig) // arguments sliced out of one caller buffer
+	before := ""
+	if rapid.IntRange(0, 3).Draw(t, "faulted-signing-before") == 0 {
+		// the process also signs, and a signing call just failed on its entropy source: verification is a
+		// function of (key, message, signature) whatever happened before
+		before = " after " + lib.FaultedSigning(t, "fs")
+	}
 	if p := lib.Catch(func() { got = key.Verify(adj[0], adj[1]) }); p != nil {
-		t.Fatalf("Verify panicked: %v", p)
+		t.Fatalf("Verify panicked%s: %v", before, p)
+	}
+	if got != want && before != "" {
+		t.Fatalf("Verify(pk=%x, msg=%x, sig=%x) = %v%s, BIP-340 says %v", pk2, msg2, sig, got, before, want)
 	}
 	if !unchanged() {
 		t.Fatalf("Verify modified its caller's buffer (msg %x, sig %x)", msg2, sig)
